@@ -125,6 +125,11 @@ class SimRNG:
         if r.random() >= self.rate:
             return None, None
         cands = [k for k in self.kinds if k in family]
+        if self.op_calls >= 3:
+            # batch-wide faults make a whole proposal round fail; the library answers an
+            # empty round by asking for 5x as many proposals, so a legal-but-probability-zero
+            # run of them is bounded to the first three draws of an operation
+            cands = [k for k in cands if k not in ("const", "echo")]
         if not cands:
             return None, None
         return r.choice(cands), r
